@@ -82,6 +82,12 @@ fn gen_c14(seed: u64, idx: usize, _tier: Tier) -> C14Scenario {
     if rng.chance(1, 4) {
         spec.lock_host = Some("localhost".into());
     }
+    let shape = rng.below(6);
+    if shape < 2 {
+        // the configuration leaves the ports to their documented defaults (`server.lock` without `port`, or no
+        // `server` section at all)
+        spec.default_ports = shape as u8 + 1;
+    }
     let kinds = [Kind::Run, Kind::CpUpdate, Kind::CpDelete, Kind::OutDelete];
     let first = *rng.pick(&kinds);
     let hold_at_child = first == Kind::Run && rng.chance(1, 2);
@@ -296,6 +302,9 @@ fn exec_c14(sc: &C14Scenario) -> Outcome {
     w.set_rand_seed(sc.rand_seed);
     let hang = Duration::from_millis(default_hang_ms());
     let mut out = Outcome::default();
+    if spec.default_ports != 0 {
+        out.fault("configuration_relies_on_the_default_ports", 1);
+    }
     // state that a trespasser would damage: a checkpoint and a completed run
     if w.cli(&["checkpoint", "update", "--id", "prefix"]).code != Some(0) {
         return Outcome::skip("prefix checkpoint failed");
